@@ -45,7 +45,16 @@ def _impl():
 def build_surface(spec):
     sf = _impl()[0]
     n = spec.get('n', 1.0)
-    kw = dict(typ=spec['kind'], P=list(spec['P']), R=(tuple(spec['R']) if spec.get('R') is not None else None))
+    sfm = _impl()[0]
+    base = {'refl': 'refl', 'reflect': 'refl', 'refr': 'refr', 'refract': 'refr', 'eval': 'eval'}[spec['kind']]
+    form = spec.get('form', 0)
+    # every documented way of naming the surface type: short / long spelling (any case) / the STYPE integer
+    typ = {'refl': ['refl', 'Reflect', sfm.STYPE_REFLECT], 'refr': ['refr', 'REFRACT', sfm.STYPE_REFRACT],
+           'eval': ['eval', 'Eval', sfm.STYPE_EVAL]}[base][form % 3]
+    P = list(spec['P'])
+    if form >= 3 and P[0] == 0 and P[1] == 0:
+        P = [P[2], [P[2]], [0.0, P[2]], np.array([0.0, 0.0, P[2]])][form % 4]   # documented: scalar z, or the trailing coordinates
+    kw = dict(typ=typ, P=P, R=(tuple(spec['R']) if spec.get('R') is not None else None))
     # mirrors and evaluation planes have no index of their own (n=None), exactly as users build them
     nfun = (lambda wvl, n=n: n) if spec['kind'] in ('refr', 'refract') else None
     sh = spec['shape']
@@ -58,6 +67,17 @@ def build_surface(spec):
     if sh[0] == 'offaxis':
         return sf.Surface.off_axis_conic(c=sh[1], k=sh[2], dx=sh[3], dy=sh[4], n=nfun, **kw)
     raise ValueError(sh)
+
+
+def _rot_deg(zyx):
+    """independent reading of make_rotation_matrix: angles (z, y, x) in degrees, missing ones zero, R = Rx Ry Rz"""
+    a = np.zeros(3)
+    a[:len(zyx)] = zyx
+    g, b, al = np.radians(a)
+    Rx = np.array([[1, 0, 0], [0, math.cos(al), -math.sin(al)], [0, math.sin(al), math.cos(al)]])
+    Ry = np.array([[math.cos(b), 0, math.sin(b)], [0, 1, 0], [-math.sin(b), 0, math.cos(b)]])
+    Rz = np.array([[math.cos(g), -math.sin(g), 0], [math.sin(g), math.cos(g), 0], [0, 0, 1]])
+    return Rx @ Ry @ Rz
 
 
 def _shape_tokens(sh):
@@ -158,7 +178,9 @@ def check_physics(specs, mats, P_hist, S_hist, n0):
         so = Rm_ @ Sout
         G, N = implicit(sp['shape'], X)
         scale = max(1.0, float(np.abs(X).max()))
-        if abs(G) > TOL * scale * max(1.0, float(np.linalg.norm(N))):
+        # Newton stops at |ds| < 100 eps and returns the point before that last step: the residual is ~1e-14; 2e-12 leaves room
+        # for rounding in the frame change and still sees a loosened stopping rule
+        if abs(G) > 2e-12 * scale * max(1.0, float(np.linalg.norm(N))):
             bad.append(f'surface {j}: hit point off the surface, implicit-equation residual {G:.3e}')
         # the hit point must be on the incoming ray
         d = Pout - Pin
@@ -259,9 +281,10 @@ def _rays_for(rng, spec, Rm, a, nrays, n_in, backward=False, maxang=None):
     Ps, Ss, tags = [], [], []
     kinds = ['axis', 'parax', 'skew', 'nearcrit', 'steep', 'skew', 'parallel', 'parallel']
     dense_to_rare = spec['kind'] in ('refr', 'refract') and n_in > n1
+    zs = np.array([1.0, 1.0, -1.0]) if backward else np.ones(3)     # backward: the ray travels against the local normal (towards -z)
     for i in range(nrays):
         kind = kinds[i % len(kinds)]
-        if kind == 'nearcrit' and not (dense_to_rare and sh[0] != 'plane' and maxang is None):
+        if kind == 'nearcrit' and not (dense_to_rare and sh[0] != 'plane' and maxang is None and not backward):
             kind = 'skew'
         if kind == 'nearcrit':
             Sl = None
@@ -301,7 +324,7 @@ def _rays_for(rng, spec, Rm, a, nrays, n_in, backward=False, maxang=None):
             th = min(th, maxang * (0.2 + 0.8 * rng.uniform()))
         xl, yl = float(xl), float(yl)
         if kind != 'nearcrit':
-            Sl = _unit(th, az)
+            Sl = _unit(th, az) * zs
         if dense_to_rare and kind != 'nearcrit':
             # stay below the critical angle with margin: n sin i <= 0.8 n'
             for _ in range(40):
@@ -311,9 +334,7 @@ def _rays_for(rng, spec, Rm, a, nrays, n_in, backward=False, maxang=None):
                     break
                 th *= 0.6                  # less oblique ...
                 xl, yl = 0.8 * xl, 0.8 * yl  # ... and closer to the vertex, where the surface is less steep
-                Sl = _unit(th, az)
-        if backward:
-            Sl = Sl * np.array([1, 1, -1.0])
+                Sl = _unit(th, az) * zs
         Xl = np.array([xl, yl, _local_sag(sh, xl, yl)])
         Xg = Rm_.T @ Xl + P0
         Sg = Rm_.T @ Sl
@@ -338,6 +359,13 @@ def _rand_frame(rng, tilted, z=0.0):
 
 
 def gen_prescription(rng, idx):
+    pr = _gen_prescription(rng, idx)
+    for j, sp in enumerate(pr['specs']):
+        sp['form'] = int((idx // 8 + j) % 6)
+    return pr
+
+
+def _gen_prescription(rng, idx):
     """-> dict(specs=[...], a=semi-aperture, n0=...)"""
     a = float(rng.choice([2.0, 5.0, 12.5]))
     mode = idx % 8
@@ -362,7 +390,7 @@ def gen_prescription(rng, idx):
         s1 = {'kind': 'refr', 'P': [0.0, 0.0, z0], 'R': None, 'shape': ('conic', float(rng.uniform(0.2, 0.8) * 0.3 / a * rng.choice([-1, 1])), float(rng.choice(KAPPAS[:4]))), 'n': ng}
         s2 = {'kind': 'refl', 'P': [0.0, 0.0, z0 + 0.5 * a], 'R': [0.0, float(rng.uniform(-2, 2))], 'shape': ('plane',) if rng.integers(0, 2) else ('sphere', float(rng.uniform(-0.2, 0.2) / a))}
         # the exit surface is met travelling towards -z: its frame is turned by 180 deg about y so that the ray runs along local +z
-        s3 = {'kind': 'refr', 'P': [0.0, 0.0, z0 - 0.2 * a], 'R': [0.0, 180.0],
+        s3 = {'kind': 'refr', 'P': [0.0, 0.0, z0 - 0.2 * a], 'R': [0.0, 180.0] if rng.integers(0, 2) else None,
               'shape': ('conic', float(rng.uniform(0.2, 0.8) * 0.3 / a * rng.choice([-1, 1])), float(rng.choice(KAPPAS[:4]))), 'n': n0}
         return {'specs': [s1, s2, s3], 'a': 0.4 * a, 'n0': n0, 'maxang': 0.12}
     if mode in (0, 1, 2, 3):               # single surface
@@ -376,7 +404,8 @@ def gen_prescription(rng, idx):
                 n0, spec['n'] = 1.0, float(rng.choice([1.33, 1.5168, 1.7, 2.4]))
             else:
                 n0, spec['n'] = float(rng.choice([1.5168, 1.7, 2.4])), float(rng.choice([1.0, 1.33]))
-        return {'specs': [spec], 'a': a, 'n0': n0}
+        # every third single surface is met by rays travelling AGAINST its normal (local m < 0), as after a fold mirror
+        return {'specs': [spec], 'a': a, 'n0': n0, 'backward': bool((idx // 8) % 3 == 2)}
     if mode == 4:                           # singlet (+ mirror or evaluation plane)
         n = float(rng.choice([1.5168, 1.7]))
         P1, R1 = _rand_frame(rng, tilted=bool(rng.integers(0, 2)))
@@ -554,7 +583,15 @@ def correspondence(ctx):
             ctx.disagree('trace', {'surfaces': specs}, f'constructor raised {type(ex).__name__}: {ex}', 'surface exists')
             continue
         mats = [None if s.R is None else np.asarray(s.R, dtype=float) for s in surfs]
-        P, S, tags = _rays_for(rng, specs[0], mats[0], pr['a'], nrays, pr['n0'], maxang=pr.get('maxang'))
+        for sp, Rm in zip(specs, mats):
+            if sp.get('R') is not None and not _cmp(Rm, _rot_deg(sp['R'])):
+                ctx.pred_fail('surface_frame', {'kind': 'refl', 'P': [0.0, 0.0, 0.0], 'R': sp['R'], 'shape': ['plane'], 'form': 0},
+                              'Surface.R is not Rx.Ry.Rz of the documented (z, y, x) angles in degrees')
+        for sp, sf_ in zip(specs, surfs):
+            if not _cmp(sf_.P, _pvec(sp['P'])):
+                ctx.pred_fail('surface_frame', {'kind': 'refl', 'P': list(sp['P']), 'R': None, 'shape': ['plane'], 'form': sp.get('form', 0)},
+                              f'Surface.P = {np.asarray(sf_.P).tolist()} for the documented position form')
+        P, S, tags = _rays_for(rng, specs[0], mats[0], pr['a'], nrays, pr['n0'], maxang=pr.get('maxang'), backward=pr.get('backward', False))
         for single in ((False, True) if (idx // 8) % 2 == 0 else (False,)):
             try:
                 P_hist, S_hist, _ = run_impl(specs, P, S, pr['n0'], single=single)
@@ -579,6 +616,8 @@ def correspondence(ctx):
             S = S if S @ gh > 0.15 else gh
             if n * np.linalg.norm(np.cross(S, gh)) > 0.85 * n1:
                 S = gh
+        if i % 6 == 3:
+            S = -S                         # travelling against the normal vector
         jobs.append(('reflect', S, g))
         lines.append('reflect ' + ' '.join(C.f2w(v) for v in list(S) + list(g)))
         jobs.append(('refract', n, n1, S, g))
@@ -688,6 +727,12 @@ def correspondence(ctx):
                     ctx.hist['trace:outside-domain'] += 1     # the ray leaves the part of a later surface the generator aims at
                     continue
                 bad = check_physics(specs, mats, ph, sh, n0)
+                ctx.hist['trace:checked'] += 1
+                ctx.hist[f'trace:checked/{k}surf'] += 1
+                if tags[i] == 'nearcrit':
+                    ctx.hist['trace:checked/nearcrit'] += 1
+                if any(sp['kind'] in ('refr', 'refract') and (np.asarray(h['Sloc']) @ np.asarray(h['r'])) < 0 for sp, h in zip(specs, model)):
+                    ctx.hist['trace:checked/refraction-against-the-normal'] += 1
                 for b in bad[:1]:
                     ctx.pred_fail('trace', case, b)
                 for j in range(k):
@@ -730,6 +775,8 @@ def correspondence(ctx):
                 ctx.pred_fail('refract', case, f'|S\'| = {np.linalg.norm(out):.12f} with a normal vector of length {np.linalg.norm(g):.6f}')
             elif np.abs(n1 * np.cross(out, gh) - n * np.cross(S, gh)).max() > TOL * max(n, n1):
                 ctx.pred_fail('refract', case, 'n sin i != n\' sin i\' about the direction of the normal vector')
+            elif (out @ gh) * (S @ gh) <= 0:
+                ctx.pred_fail('refract', case, f'the refracted ray does not continue through the surface: S.r = {S @ g:.6f}, S\'.r = {out @ g:.6f}')
         elif kind == 'rot':
             _, ang = job
             m = np.array([C.w2f(t) for t in next(rep).split()]).reshape(3, 3)
@@ -802,6 +849,20 @@ def correspondence(ctx):
                 ctx.pred_fail('frames', case, 'local/global frame change is not an exact rigid motion')
 
     _qtype_stream(ctx)
+    _floors(ctx)
+
+
+def _floors(ctx):
+    """a run must not hollow out silently: skipped / out-of-scope cases are counted, and too few executed ones is a TOOL error"""
+    h = ctx.hist
+    ntr = ctx.items.get('trace', 0)
+    need = {'trace:checked': 0.7 * ntr, 'trace:checked/1surf': 0.3 * ntr, 'trace:checked/2surf': 0.03 * ntr,
+            'trace:checked/3surf': 0.1 * ntr, 'trace:checked/nearcrit': 3, 'trace:checked/refraction-against-the-normal': 0.02 * ntr,
+            'refract:near-critical-sloped': 100, 'off_axis_polar:dx': 30, 'off_axis_polar:dy': 30,
+            'qtype_trace:refl/dx': 10, 'qtype_trace:refr/dx': 10, 'qtype_trace:refl/dy': 10, 'qtype_trace:refr/dy': 10}
+    low = {k: (h.get(k, 0), int(v)) for k, v in need.items() if h.get(k, 0) < v}
+    if low:
+        raise C.ToolError(f'C19 correspondence executed too few cases (got, floor): {low}')
 
 
 def _qtype_stream(ctx):
@@ -947,6 +1008,13 @@ def replay(inp):
         for b in bad:
             print('  ', b)
         return bool(bad)
+    if item == 'surface_frame':
+        surf = build_surface({**c, 'shape': tuple(c['shape'])})
+        print('Surface.P =', np.asarray(surf.P).tolist(), ' Surface.R =', None if surf.R is None else np.asarray(surf.R).tolist())
+        bad = not _cmp(surf.P, _pvec(c['P']))
+        if c.get('R') is not None:
+            bad = bad or not _cmp(surf.R, _rot_deg(c['R']))
+        return bool(bad)
     if item == 'qtype_trace':
         bad = q_eval(c, [c['P']], [c['S']])
         for _, b in bad:
@@ -970,7 +1038,8 @@ def replay(inp):
         gh = g[0] / np.linalg.norm(g[0])
         dev = np.abs(c['nprime'] * np.cross(out, gh) - c['n'] * np.cross(S[0], gh)).max()
         print('S\' =', out.tolist(), '|S\'| =', np.linalg.norm(out), 'Snell residual', dev)
-        return (not np.isfinite(out).all()) or abs(np.linalg.norm(out) - 1) > TOL or dev > TOL * max(c['n'], c['nprime'])
+        return (not np.isfinite(out).all()) or abs(np.linalg.norm(out) - 1) > TOL or dev > TOL * max(c['n'], c['nprime']) \
+            or (out @ gh) * (S[0] @ gh) <= 0
     if item == 'reflect':
         S = np.array(c['S'])
         g = np.array(c['r'])
@@ -1008,25 +1077,27 @@ def replay(inp):
 
 
 MANIFEST_ENTRY = {
-    'technique': 'Lean 4 proof (field algebra over translator-generated vector formulas, sqrt as a parameter) + '
-                 'differential ray tracing against the Lean Float model with an independent implicit-surface oracle',
-    'text': ('PARTIAL.  Machine-checked for every ray, normal and parameter (over any ordered field, sqrt entering through '
-             'sqrt(x)^2 = x, sqrt >= 0): reflect preserves length and mirrors about r for every non-zero (un-normalised) normal; '
-             'refract returns a unit vector, n\'(S\' x r) = n(S x r) (plane of incidence + n sin i = n\' sin i\') and S\'.r >= 0 for '
-             'every unit S and every NON-ZERO normal vector of any length below the critical angle, in particular for the '
-             'un-normalised gradient (-Fx,-Fy,1) that raytrace hands over (call site translated); the frame changes are inverse '
-             'rigid motions when R^T R = I, and make_rotation_matrix is orthogonal for all angles; the conic sag satisfies the '
-             'conic equation and (-Fx,-Fy,1) is parallel to the gradient of the implicit equation (true normal), also for the '
-             'off-axis conic closure; the polar->Cartesian gradient never divides by zero and equals the Cartesian gradient at '
-             'every point, the vertex included; over the reals conic_sag_der is the derivative (HasDerivAt) of conic_sag; the public '
-             'polar off-axis functions equal the parent conic at shifted coordinates and their (d/dr, d/dt) are the chain-rule images '
-             'of its Cartesian gradient; intersect starts on the vertex plane; Newton post-condition |F| < eps|F\'| when '
-             'the loop stops.  All of these are stated over definitions regenerated from the current source each run.  '
-             'Modelled-and-compared only: the whole trace (Newton iteration, per-ray convergence masking, multi-surface '
-             'threading of the index), on seeded prescriptions with an independent oracle.'),
-    'note': ('NOT proved: convergence of Newton-Raphson (only its post-condition), floating-point error, the batch masking '
-             'bookkeeping; Q-type surfaces are not modelled in Lean (no Surface constructor exists for them): they are traced on the '
-             'real code only and checked against the Richardson gradient of their own sag at 1e-7; '
-             'refraction of rays that travel against the surface normal.  Trusted: Lean kernel + standard axioms, the ast->Lean '
-             'translator for the vector-expression subset (validated by running model vs code), NumPy primitives.'),
+    'technique': 'Lean 4 proof (field algebra over translator-generated vector formulas, sqrt / copysign as parameters with laws) + '
+                 'differential ray tracing against the Lean Float model with independent implicit-surface / numerical-gradient oracles',
+    'text': ('PARTIAL.  PROPERTY THEOREMS (every ray, normal, parameter; any ordered field; sqrt via sqrt(x)^2 = x, sqrt >= 0, copysign via '
+             'its definition): reflect preserves length and mirrors about r for every non-zero (un-normalised) normal; refract returns a '
+             'unit vector, n\'(S\' x r) = n(S x r) (plane of incidence + n sin i = n\' sin i\') and S\'.r has the sign of S.r (the '
+             'refracted ray continues through the surface, also when it travels against the normal) for every unit S and every NON-ZERO '
+             'normal of any length below the critical angle, in particular for the un-normalised gradient raytrace hands over; frame '
+             'changes are inverse rigid motions when R^T R = I and make_rotation_matrix is orthogonal for all angles; the conic sag '
+             'satisfies the conic equation and (-Fx,-Fy,1) is parallel to the gradient of the implicit equation (true normal), also for '
+             'the off-axis closure; over the reals conic_sag_der is the derivative (HasDerivAt) of conic_sag; the polar->Cartesian '
+             'gradient never divides by zero and equals the Cartesian gradient on the whole surface, vertex included; the public polar '
+             'off-axis functions are the chain-rule images of the parent conic at shifted coordinates; intersect starts on the vertex '
+             'plane; Newton post-condition |F| < eps|F\'| IF the loop stops.  TRANSLATION IDENTITIES (generated = model, syntactic or '
+             'ring-normalised; AST facts; no content of their own): the 12 gen_* theorems and gen_structure.  COMPARED ON THE REAL CODE: '
+             'the whole trace (Newton iteration, masking, index threading through n=None surfaces inside glass, batch and single-ray '
+             'call forms, every spelling of typ and of P) against the Lean Float model and an independent implicit-surface oracle '
+             '(on-surface residual 2e-12, unit length, mirror law, Snell with the true indices, continuation through the surface, rays '
+             'against the normal, 50%..99.9% of the critical angle at sloped points); off_axis_conic_sag/der against model and numerical '
+             'derivatives; Q-type surfaces (Q2d_and_der) traced and checked against the numerical gradient of their own sag.'),
+    'note': ('NOT proved: convergence of Newton-Raphson (only its post-condition, exact arithmetic), floating-point error, the batch '
+             'masking bookkeeping, that hypot/arctan2 deliver a (cos, sin) pair, any whole-trace composition lemma; Q-type surfaces are '
+             'not modelled in Lean (real code vs numerical gradient at 1e-7 only); eps / maxiter are not translated (a loosened stopping '
+             'rule is seen through the 2e-12 on-surface residual).  Too few executed cases in any stream is a tool error (floors).'),
 }
